@@ -1022,14 +1022,17 @@ def adi_tags(si):
     return sorted(set(t))
 
 
-register("C14", gen=gen_adi, oracles=[oracle.c14], nontrivial=adi_nontrivial, tags=adi_tags,
+register("C14", lean_modules=["FsProofs.Properties.C14"],
+         theorems=["Fs.C14.thomas_solves", "Fs.C14.thomas_some", "Fs.C14.solveRow_eq", "Fs.C14.solveRow_isSome", "Fs.C14.solveRow_equations",
+                   "Fs.C14.adi_pivots_ne_zero", "Fs.C14.factorsScalar_mid", "Fs.C14.factorsCol_mid", "Fs.C14.factorsRow_mid", "Fs.C14.factorsCol_nonneg"],
+         gen=gen_adi, oracles=[oracle.c14], nontrivial=adi_nontrivial, tags=adi_tags,
          sections={"adi", "grid"},
          rule="rasters 3..7 (thorough ..12) per axis, anisotropic spacings, arbitrary border statuses incl. looped and interior status overrides, K scalar or array (uniform, random, curved, stepped; 1e-3..1e3), dt in {0,1e-3,1,100,1e6}, elevation families; 1-3 eroders per grid, 1-2 erode() calls each; oracle = exact-rational direct solve of the two half-step systems; non-trivial = some erosion non-zero",
          trusted_base=["ADI theorems are over a field (exact arithmetic); rounding is covered by the bit-exact correspondence and the oracle's condition-number-scaled tolerance",
                        "xtensor expression evaluation order mirrored by hand in Fs.Adi (tied by bit-exact comparison)"])
-_lvl("C14", "translation_validation",
-     "set_factors, the Thomas solve and both half steps are modelled in Lean (Fs.Adi) with the C++ operation order and compared bit for bit; the oracle solves the two half-step systems of the Peaceman-Rachford scheme directly in exact rationals (face-averaged diffusivity, fixed-value borders) and checks zero border erosion. Thomas/pivot theorems exist for a formulation not yet tied to Fs.Adi.thomas.",
-     "bit-exact differential correspondence with the Lean model + exact-rational direct-solve oracle")
+_lvl("C14", "proof",
+     "Theorems about the executed definitions Fs.Adi.thomas / solveRow over an arbitrary (ordered) field: thomas_solves (whenever the Thomas sweep returns, its result satisfies the first, every interior and the last row of the tridiagonal system, any size), solveRow_equations (each interior row of a half step keeps the two border values and satisfies at every interior column the implicit equation -(f0 dt) x(c-1) + (1 + 2 f1 dt) x(c) - (f2 dt) x(c+1) = (1 - 2 g1 dt) e(r,c) + g0 dt e(r-1,c) + g2 dt e(r+1,c), i.e. the Peaceman-Rachford half step with the factor tables), solveRow_isSome + adi_pivots_ne_zero (for non-negative face factors and dt every pivot is >= 1: erode never throws), factors*_mid / factorsCol_nonneg (the tables set_factors builds have centre = mean of the two face factors and are non-negative for K >= 0, scalar and array). The second half step is the same function on transposed data (by definition of erode). Linearity and scalar = uniform array follow from uniqueness in exact arithmetic and are checked by the exact-rational oracle, not stated as theorems.",
+     "Lean 4 field proofs (Thomas elimination, diagonal dominance) on the executed definitions + bit-exact correspondence + exact-rational direct-solve oracle")
 
 
 # ----------------------------------------------------------------------------- C11
